@@ -360,6 +360,18 @@ func fatBigChainScenario(cfg fatCfg, oracle string, depth int) *fatScen {
 	return &fatScen{Name: "bigchain", Cfg: cfg, Letters: l, Depth: depth, Oracle: oracle}
 }
 
+// heldHandleScenario (structural oracles only): one handle stays open on a multi-cluster file while the same file is
+// truncated, rewritten, renamed over or removed through other calls, and is then written through again. What a plain tree
+// would say about a stale handle is a matter of interpretation and is not judged; the on-disk structure must stay sound.
+func heldHandleScenario(cfg fatCfg, oracle string, depth int) *fatScen {
+	W := func(p, off, ln string) fsOp { return fsOp{Kind: "write", Path: p, Off: off, Len: ln} }
+	pre := []fsOp{W("F.BIN", "0", "6c"), W("other-long-name.bin", "0", "2c+1")}
+	l := []fsOp{{Kind: "hold", Path: "F.BIN"}, {Kind: "heldwrite", Off: "0", Len: "7"}, {Kind: "heldwrite", Off: "eof", Len: "c+1"}, {Kind: "heldwrite", Off: "past", Len: "1"}, {Kind: "heldread", Off: "0", Len: "2c+1"},
+		{Kind: "trunc", Path: "F.BIN"}, W("F.BIN", "0", "1"), W("F.BIN", "eof", "2c+1"), {Kind: "remove", Path: "F.BIN"}, {Kind: "rename", Path: "other-long-name.bin", Path2: "F.BIN"},
+		{Kind: "release"}, {Kind: "reopen"}}
+	return &fatScen{Name: "heldhandle", Cfg: cfg, Prefix: pre, Letters: l, Depth: depth, Oracle: oracle}
+}
+
 // fatFillScenario: fill / empty / refill on small volumes, explored to fixpoint.
 func fatFillScenario(cfg fatCfg, oracle string, depth int) *fatScen {
 	W := func(p, ln string) fsOp { return fsOp{Kind: "write", Path: p, Off: "0", Len: ln} }
